@@ -236,11 +236,11 @@ theorem json_de_ser_partial (rd : Nat → Nat) (hrd : ∀ b, rd b = b) (t : Ty) 
 /-- Bit patterns observed on the unchanged implementation (replay/known finding
     `json:de-float-off-by-ulp`): the float -2.6718800418338653e135 is printed by std.json.ser and
     read back by std.json.de as -2.671880041833865e135, one unit in the last place away. -/
-def observedRd (b : Nat) : Nat := if b = 0xdc0f0ccaa7f39fca then 0xdc0f0ccaa7f39fc9 else b
+def observedRd (b : Nat) : Nat := if b = 0xdc0d6881c1e92ae4 then 0xdc0d6881c1e92ae3 else b
 
 theorem json_float_roundtrip_fails :
-    de observedRd .float (ser .float (0xdc0f0ccaa7f39fca : Nat)) ≠ some (0xdc0f0ccaa7f39fca : Nat) := by
-  show (some (observedRd 0xdc0f0ccaa7f39fca) : Option Nat) ≠ some 0xdc0f0ccaa7f39fca
+    de observedRd .float (ser .float (0xdc0d6881c1e92ae4 : Nat)) ≠ some (0xdc0d6881c1e92ae4 : Nat) := by
+  show (some (observedRd 0xdc0d6881c1e92ae4) : Option Nat) ≠ some 0xdc0d6881c1e92ae4
   simp [observedRd]
 
 /-- `Option (Option a)` is not representable: `Some None` and `None` serialise alike. -/
